@@ -216,3 +216,100 @@ theorem iteratedDerivWithin_quotient (s : Side) (τ : ℕ → ℝ) (hτ : Monoto
       (t0 := t0) ⟨le_refl _, h0, hW⟩
 
 end Splipy
+
+/-! ## Surface closed forms as iterated one-variable derivatives -/
+
+namespace Splipy
+
+open RatDeriv
+
+/-- The pure-`u` closed forms of `Surface.derivative` are the curve closed forms of the `u`-jets. -/
+theorem surfD20_eq_curveD2 {K : Type} [Field K] (n W : SurfJet K) :
+    surfD20 n W = curveD2 n.f00 n.f10 n.f20 W.f00 W.f10 W.f20 := by
+  simp only [surfD20, Surf.G1, Surf.dH1du, Surf.H1, curveD2]
+  ring
+
+theorem surfD02_eq_curveD2 {K : Type} [Field K] (n W : SurfJet K) :
+    surfD02 n W = curveD2 n.f00 n.f01 n.f02 W.f00 W.f01 W.f02 := by
+  simp only [surfD02, Surf.G2, Surf.dH2dv, Surf.H2, curveD2]
+  ring
+
+theorem surfD30_eq_curveD3 {K : Type} [Field K] (n W : SurfJet K) :
+    surfD30 n W = curveD3 n.f00 n.f10 n.f20 n.f30 W.f00 W.f10 W.f20 W.f30 := by
+  simp only [surfD30, Surf.dG1du, Surf.d2H1du, Surf.G1, Surf.dH1du, Surf.H1, curveD3]
+  ring
+
+theorem surfD03_eq_curveD3 {K : Type} [Field K] (n W : SurfJet K) :
+    surfD03 n W = curveD3 n.f00 n.f01 n.f02 n.f03 W.f00 W.f01 W.f02 W.f03 := by
+  simp only [surfD03, Surf.dG2dv, Surf.d2H2dv, Surf.G2, Surf.dH2dv, Surf.H2, curveD3]
+  ring
+
+section mixed
+
+variable {n00 n10 n20 n01 n11 n21 W00 W10 W20 W01 W11 W21 : ℝ → ℝ} {S : Set ℝ} {t : ℝ}
+
+/-- Mixed partial `(1,1)`: the derivative in the SECOND variable of the first-order closed form in the first
+variable is `surfD11`.  (`nab` = `∂ᵃ` in the first, `∂ᵇ` in the second variable, as functions of the second.) -/
+theorem hasDerivWithinAt_quot11 (h00 : HasDerivWithinAt n00 (n01 t) S t)
+    (h10 : HasDerivWithinAt n10 (n11 t) S t) (g00 : HasDerivWithinAt W00 (W01 t) S t)
+    (g10 : HasDerivWithinAt W10 (W11 t) S t) (h0 : W00 t ≠ 0) (n W : SurfJet ℝ)
+    (en : n.f00 = n00 t ∧ n.f10 = n10 t ∧ n.f01 = n01 t ∧ n.f11 = n11 t)
+    (eW : W.f00 = W00 t ∧ W.f10 = W10 t ∧ W.f01 = W01 t ∧ W.f11 = W11 t) :
+    HasDerivWithinAt (fun x => first (n00 x) (n10 x) (W00 x) (W10 x)) (surfD11 n W) S t := by
+  unfold first
+  have h := (h10.div g00 h0).sub (((h00.mul g10).div g00 h0).div g00 h0)
+  refine h.congr_deriv ?_
+  obtain ⟨a1, a2, a3, a4⟩ := en
+  obtain ⟨b1, b2, b3, b4⟩ := eW
+  simp only [surfD11, Surf.dH1dv, Surf.H1, a1, a2, a3, a4, b1, b2, b3, b4, Pi.mul_apply, Pi.div_apply]
+  field_simp
+  ring
+
+/-- Mixed partial `(2,1)`: the derivative in the second variable of the second-order closed form in the first
+variable is `surfD21`. -/
+theorem hasDerivWithinAt_quot21 (h00 : HasDerivWithinAt n00 (n01 t) S t)
+    (h10 : HasDerivWithinAt n10 (n11 t) S t) (h20 : HasDerivWithinAt n20 (n21 t) S t)
+    (g00 : HasDerivWithinAt W00 (W01 t) S t) (g10 : HasDerivWithinAt W10 (W11 t) S t)
+    (g20 : HasDerivWithinAt W20 (W21 t) S t) (h0 : W00 t ≠ 0) (n W : SurfJet ℝ)
+    (en : n.f00 = n00 t ∧ n.f10 = n10 t ∧ n.f20 = n20 t ∧ n.f01 = n01 t ∧ n.f11 = n11 t ∧ n.f21 = n21 t)
+    (eW : W.f00 = W00 t ∧ W.f10 = W10 t ∧ W.f20 = W20 t ∧ W.f01 = W01 t ∧ W.f11 = W11 t ∧ W.f21 = W21 t) :
+    HasDerivWithinAt (fun x => curveD2 (n00 x) (n10 x) (n20 x) (W00 x) (W10 x) (W20 x)) (surfD21 n W) S t := by
+  unfold curveD2
+  have hc2 : HasDerivWithinAt (fun _ : ℝ => (2 : ℝ)) 0 S t := hasDerivWithinAt_const t S 2
+  have hnum := (((h20.mul g00).mul g00).sub ((hc2.mul g10).mul ((h10.mul g00).sub (h00.mul g10)))).sub
+    ((h00.mul g20).mul g00)
+  have h := ((hnum.div g00 h0).div g00 h0).div g00 h0
+  refine h.congr_deriv ?_
+  obtain ⟨a1, a2, a3, a4, a5, a6⟩ := en
+  obtain ⟨b1, b2, b3, b4, b5, b6⟩ := eW
+  simp only [surfD21, Surf.dG1dv, Surf.d2H1duv, Surf.G1, Surf.dH1du, Surf.dH1dv, Surf.H1,
+    a1, a2, a3, a4, a5, a6, b1, b2, b3, b4, b5, b6, Pi.mul_apply, Pi.sub_apply, Pi.div_apply]
+  field_simp
+  ring
+
+/-- Mixed partial `(1,2)`: mirror image of `hasDerivWithinAt_quot21` (functions of the FIRST variable; `m0b` is
+`∂ᵇ` in the second variable, its derivative here is `m1b`). -/
+theorem hasDerivWithinAt_quot12 {m00 m01 m02 m10 m11 m12 V00 V01 V02 V10 V11 V12 : ℝ → ℝ}
+    (h00 : HasDerivWithinAt m00 (m10 t) S t) (h01 : HasDerivWithinAt m01 (m11 t) S t)
+    (h02 : HasDerivWithinAt m02 (m12 t) S t) (g00 : HasDerivWithinAt V00 (V10 t) S t)
+    (g01 : HasDerivWithinAt V01 (V11 t) S t) (g02 : HasDerivWithinAt V02 (V12 t) S t)
+    (h0 : V00 t ≠ 0) (n W : SurfJet ℝ)
+    (en : n.f00 = m00 t ∧ n.f01 = m01 t ∧ n.f02 = m02 t ∧ n.f10 = m10 t ∧ n.f11 = m11 t ∧ n.f12 = m12 t)
+    (eW : W.f00 = V00 t ∧ W.f01 = V01 t ∧ W.f02 = V02 t ∧ W.f10 = V10 t ∧ W.f11 = V11 t ∧ W.f12 = V12 t) :
+    HasDerivWithinAt (fun x => curveD2 (m00 x) (m01 x) (m02 x) (V00 x) (V01 x) (V02 x)) (surfD12 n W) S t := by
+  unfold curveD2
+  have hc2 : HasDerivWithinAt (fun _ : ℝ => (2 : ℝ)) 0 S t := hasDerivWithinAt_const t S 2
+  have hnum := (((h02.mul g00).mul g00).sub ((hc2.mul g01).mul ((h01.mul g00).sub (h00.mul g01)))).sub
+    ((h00.mul g02).mul g00)
+  have h := ((hnum.div g00 h0).div g00 h0).div g00 h0
+  refine h.congr_deriv ?_
+  obtain ⟨a1, a2, a3, a4, a5, a6⟩ := en
+  obtain ⟨b1, b2, b3, b4, b5, b6⟩ := eW
+  simp only [surfD12, Surf.dG2du, Surf.d2H2duv, Surf.G2, Surf.dH2dv, Surf.dH2du, Surf.H2,
+    a1, a2, a3, a4, a5, a6, b1, b2, b3, b4, b5, b6, Pi.mul_apply, Pi.sub_apply, Pi.div_apply]
+  field_simp
+  ring
+
+end mixed
+
+end Splipy
